@@ -152,6 +152,13 @@ class Values:
         cell = [r.uniform(2, 30), r.uniform(2, 30), r.uniform(2, 30), al, be, math.degrees(math.acos(cg))]
         atoms = [(r.randint(1, 98), r.choice([1.0, r.uniform(0.05, 1.0)]), r.random(), r.random(), r.random()) for _ in range(r.randint(1, 6))]
         out.append(calls.crystal_user(cell, atoms))
+        # the same cell with one unusable atom that is NOT the first one (an element without form factors, or no element at all): the call must
+        # fail as a whole - what the earlier atoms contributed must not come back with the error
+        bad = list(atoms) + [(r.choice([99, 0, 130, -1]), 1.0, r.random(), r.random(), r.random())]
+        if len(bad) > 2 and r.random() < 0.5:
+            k = r.randrange(1, len(bad) - 1)
+            bad[k], bad[-1] = bad[-1], bad[k]
+        out.append(calls.crystal_user(cell, bad))
         return out
 
 
@@ -245,9 +252,13 @@ def corner_pairs(vals, fn, kinds, names, zhint=26):
             col = vals.strings(names[i], fn, 6)
             good = [x for x in col if x][:2]
             slots.append(((i,), [(v,) for v in [None, ""] + good + [x for x in col if x and x not in good][-1:]]))
+        elif k == "out":
+            slots.append(((i,), [(0,), ("N",)]))       # an out parameter the caller does not want: NULL
+        elif k in ("array", "outc"):
+            slots.append(((i,), [(0,)]))
         elif k == "crystal":
             col = vals.crystals(3)
-            slots.append(((i,), [(v,) for v in ["cNULL", col[0], col[-1]]]))
+            slots.append(((i,), [(v,) for v in ["cNULL", col[0], col[-2], col[-1]]]))
         else:
             return []
         i += 1
